@@ -244,7 +244,7 @@ MANIFEST_TEXT = ('Machine-checked proof (Coq) over a model of the stale-flag pro
                  'pre-fix table / restore order is kept for the witnesses, the statements about the code as it is are proved: route '
                  'values fresh at hand-over, restore aggregates = fold over the tours that remain), C05-F4 values / objective '
                  'computed before the state they read is refreshed (open), C05-F6 a tour emptied by a state handler of the same '
-                 'refresh is still counted (open). The feature table of the Coq instantiation is compared on every run '
+                 'refresh was still counted (repaired in /repo by 70e48c1, witness and repaired statement proved). The feature table of the Coq instantiation is compared on every run '
                  'with the handlers / state keys extracted from the `impl FeatureState` blocks of the source.')
 MANIFEST_NOTE = ('Trusted: Coq kernel+vm_compute; the two cfg-gated hooks; harness rebuild; generators. The feature table '
                  '(which handler recomputes which field) is instantiated by reading the FeatureState impls, validated by the digests. '
